@@ -29,7 +29,10 @@ namespace EPV.MapArray
 records the sign of a zero double for printing.  `str`/`uri` are code-point lists.
 `date year utc tz`: an xs:date with lexical year `year`, starting instant `utc` (minutes on the
 proleptic timeline, the timezone applied, or taken as UTC when there is none) and optional
-timezone offset in minutes. -/
+timezone offset in minutes.
+`opq tag rep`: a value of a type whose identity is decided by a canonical representative computed
+by the harness: tag 1 = xs:QName (`rep` = code points of `{namespace}local`), 2 = a duration
+(`[months, microseconds]`), 3 = xs:hexBinary, 4 = xs:base64Binary (`rep` = the octets). -/
 inductive Key where
   | int (v : Int)
   | dec (v : Rat)
@@ -40,6 +43,7 @@ inductive Key where
   | uri (s : List Nat)
   | bool (b : Bool)
   | date (year utc : Int) (tz : Option Int)
+  | opq (tag : Nat) (rep : List Int)
   deriving DecidableEq, Inhabited
 
 inductive Err where
@@ -58,6 +62,7 @@ the same instant have years at most 1 apart, so `==` on dates is "same `utc` fie
 (the `year` field of a `Key.date` is the lexical year of that very date — harness invariant). -/
 inductive EqRep where
   | num (v : Rat) | nan | inf (neg : Bool) | text (s : List Nat) | date (utc : Int)
+  | opq (tag : Nat) (rep : List Int)
   deriving DecidableEq
 
 def Key.eqRep : Key → EqRep
@@ -70,14 +75,17 @@ def Key.eqRep : Key → EqRep
   | .str s => .text s
   | .uri s => .text s
   | .date _ u _ => .date u
+  | .opq t r => .opq (if t = 4 then 3 else t) r   -- AbstractBinary.__eq__ compares the octets across the two types
 
 /-- What a Python dict distinguishes: `hash(k)` and `==`.  Hashes agree with `==` on numbers,
 booleans and strings (`hash(1) = hash(1.0) = hash(Decimal(1)) = hash(True)`,
-`AnyURI.__hash__ = hash(value)`); for dates `hash((self._dt, self._year))` separates a naive from
-an aware `datetime` and two different lexical years (assumption: no accidental collision), so
-such dates never meet in a dict although they can be `==`. -/
+`AnyURI.__hash__ = hash(value)`), on dates since the fix "date/time values hash by their instant"
+(`hash(self.todelta())`), on QNames and durations; an xs:hexBinary and an xs:base64Binary with the
+same octets are `==` but hash differently (assumption: no accidental collision), so they never
+meet in a dict. -/
 inductive DictRep where
-  | num (v : Rat) | nan | inf (neg : Bool) | text (s : List Nat) | date (year utc : Int) (aware : Bool)
+  | num (v : Rat) | nan | inf (neg : Bool) | text (s : List Nat) | date (utc : Int)
+  | opq (tag : Nat) (rep : List Int)
   deriving DecidableEq
 
 def Key.dictRep : Key → DictRep
@@ -89,14 +97,16 @@ def Key.dictRep : Key → DictRep
   | .dinf n => .inf n
   | .str s => .text s
   | .uri s => .text s
-  | .date y u tz => .date y u tz.isSome
+  | .date _ u _ => .date u
+  | .opq t r => .opq t r
 
 /-- same dict slot: `k in _map` / `_map[k]` of `XPathMap` (maps.py: NaN is stored under `None`,
 so two NaNs meet). -/
 def dictEq (a b : Key) : Bool := decide (a.dictRep = b.dictRep)
 
-/-- `not not_equal(a, b)` (helpers.py:316), the `==` scan of `map:contains`, and `same_key`
-(compare.py:387) on this key domain: Python `==`, plus NaN equal to NaN. -/
+/-- `compare.same_key` (compare.py:387) on this key domain — the relation of every key scan
+(map:contains/put/remove/find, map:merge slow path): Python `==`, plus NaN equal to NaN; a QName
+is never the same key as a string (the `AbstractQName` xor test). -/
 def scanEq (a b : Key) : Bool := decide (a.eqRep = b.eqRep)
 
 /-- transcription of `compare.same_key(k1, k2)` (compare.py:387-400) -/
@@ -141,15 +151,16 @@ def mapCtor (l : List (Key × α)) : Except Err (Entries α) := ctorAux [] l
 /-- `map_(key)` = `XPathMap.__call__` (maps.py:191-214): `_map[key]`, `[]` on KeyError -/
 def mapGet (es : Entries (List β)) (k : Key) : List β := (dictGet es k).getD []
 
-/-- `map:contains` (functions.py:125-147): NaN → any NaN key; otherwise the first `k == key` -/
+/-- `map:contains` (functions.py, after the fix "identify keys with same_key"):
+`any(same_key(k, key) for k in keys)`; `same_key` is `scanEq` on this domain (`sameKeyPy_eq_scanEq`) -/
 def mapContains (es : Entries α) (k : Key) : Bool := es.any fun e => scanEq e.1 k
 
 /-- `map:put` (functions.py:162-177):
-`items = {k: v for k, v in map_.items() if not_equal(k, key)}; items[key] = value; XPathMap(items)` -/
+`items = {k: v for k, v in map_.items() if not same_key(k, key)}; items[key] = value; XPathMap(items)` -/
 def mapPut (es : Entries α) (k : Key) (v : α) : Except Err (Entries α) :=
   mapCtor (dictSet (dictOfList (es.filter fun e => !scanEq e.1 k)) k v)
 
-/-- `map:remove` (functions.py:180-197): keep `(k, v)` when `all(not_equal(k, x) for x in keys)` -/
+/-- `map:remove`: keep `(k, v)` when `not any(same_key(k, x) for x in keys)` -/
 def mapRemove (es : Entries α) (ks : List Key) : Except Err (Entries α) :=
   mapCtor (es.filter fun e => ks.all fun x => !scanEq e.1 x)
 
@@ -161,9 +172,10 @@ inductive Policy where
   deriving DecidableEq, Inhabited
 
 /-- `isinstance(k1, SAFE_KEY_ATOMIC_TYPES) or isinstance(k1, float) and not math.isnan(k1)`
-(functions.py:233): int (and so bool), Decimal, dates, non-NaN doubles take the dict fast path. -/
+(functions.py:233): int (and so bool), Decimal, dates, durations, binaries, non-NaN doubles take the dict fast path. -/
 def isSafeKey : Key → Bool
   | .str _ | .uri _ | .dnan => false
+  | .opq 1 _ => false                      -- a QName is not in SAFE_KEY_ATOMIC_TYPES
   | _ => true
 
 /-- one `(k1, v)` of the `map:merge` loop (functions.py:231-263, after the F15e fix the `combine`
@@ -254,6 +266,93 @@ def arrTail : List α → Except Err (List α)
 /-- `array:reverse` (functions.py:492-502) -/
 def arrReverse (ms : List α) : List α := ms.reverse
 
+/-! deep-equal on atomic values, higher-order array functions -/
+
+/-- `float(x)` for a rational `x` (a `Decimal`): the nearest binary64 value, ties to even.
+Normal range only (no overflow to INF, no subnormals) — enough for every literal the harness
+produces; assumption of the trusted base: CPython's `float(Decimal)` is correctly rounded. -/
+def roundDbl (x : Rat) : Rat :=
+  if x = 0 then 0 else
+  let neg := decide (x < 0)
+  let n := x.num.natAbs
+  let d := x.den
+  -- e with 2^52 <= n / (d * 2^e) < 2^53, found from the bit lengths and corrected by one
+  let e0 : Int := (n.log2 : Int) - (d.log2 : Int) - 52
+  let scaled (e : Int) : Nat × Nat := if e ≥ 0 then (n, d * 2 ^ e.toNat) else (n * 2 ^ (-e).toNat, d)
+  let fits (e : Int) : Bool := let (a, b) := scaled e; decide (2 ^ 52 * b ≤ a) && decide (a < 2 ^ 53 * b)
+  let e := if fits e0 then e0 else if fits (e0 - 1) then e0 - 1 else e0 + 1
+  let (a, b) := scaled e
+  let q := a / b
+  let r := a % b
+  let m := if 2 * r < b then q else if 2 * r > b then q + 1 else if q % 2 = 0 then q else q + 1
+  let v : Rat := if e ≥ 0 then (m * 2 ^ e.toNat : Nat) else mkRat m (2 ^ (-e).toNat)
+  if neg then -v else v
+
+/-- the atomic branch of `compare.deep_equal` (compare.py, `else:` of the item loop, codepoint
+collation) on this value domain -/
+def pyAtomEq (a b : Key) : Bool :=
+  match a, b with
+  | .bool x, .bool y => x == y                         -- value1 is value2
+  | .bool _, _ => false
+  | _, .bool _ => false
+  | .str s, .str t | .str s, .uri t | .uri s, .str t | .uri s, .uri t => s == t   -- strcoll == 0
+  -- value1 is a float
+  | .dnan, b => b == .dnan
+  | .dinf n, b => b == .dinf n
+  | .dbl v _, .dec w => v == roundDbl w                -- value1 != float(value2)
+  | .dbl v _, .dbl w _ => v == w
+  | .dbl v _, .int w => v == (w : Rat)                 -- exact int/float comparison of Python
+  | .dbl _ _, _ => false
+  -- value2 is a float
+  | _, .dnan => false
+  | _, .dinf _ => false
+  | .dec w, .dbl v _ => v == roundDbl w
+  | .int w, .dbl v _ => (w : Rat) == v
+  | _, .dbl _ _ => false
+  -- value1 != value2
+  | a, b => decide (a.eqRep = b.eqRep)
+
+/-- function arguments used with the higher-order functions (all pure, none allocates):
+`function($x){$x}`, `function($x){<literal>}`, `function($x){($x,$x)}`, `function($x){count($x)}` -/
+inductive Fn1 where
+  | ident | const (k : Key) | dup | count
+  deriving DecidableEq, Inhabited
+
+/-- predicates for array:filter: `true()`/`false()`, `exists($x)`, `count($x) = 1`, and
+`count($x)` (not a boolean: XPTY0004) -/
+inductive Pred1 where
+  | always (b : Bool) | nonEmpty | single | notBool
+  deriving DecidableEq, Inhabited
+
+/-- binary functions: `($a,$b)`, `($b,$a)`, `$a`, `$b`, `count($b)` -/
+inductive Fn2 where
+  | concat | rconcat | left | right | countR
+  deriving DecidableEq, Inhabited
+
+/-- `array:filter` (functions.py `filter_function` inside `filter(...)`) -/
+def filterLoop (p : α → Option Bool) : List α → Except Err (List α)
+  | [] => .ok []
+  | x :: xs =>
+    match p x with
+    | none => .error .XPTY0004
+    | some b =>
+      match filterLoop p xs with
+      | .ok r => .ok (if b then x :: r else r)
+      | .error e => .error e
+
+/-- `array:fold-left`: `for item in items: result = func(result, item)` -/
+def foldLLoop (f : β → α → β) : β → List α → β
+  | acc, [] => acc
+  | acc, x :: xs => foldLLoop f (f acc x) xs
+
+/-- `array:fold-right`: `for item in reversed(items): result = func(item, result)` -/
+def foldRLoop (f : α → β → β) (zero : β) (ms : List α) : β := foldLLoop (fun acc x => f x acc) zero ms.reverse
+
+/-- `array:for-each-pair`: `map(lambda x: func(*x), zip(items1, items2))` -/
+def pairLoop (f : α → α → β) : List α → List α → List β
+  | a :: as, b :: bs => f a b :: pairLoop f as bs
+  | _, _ => []
+
 /-! ## 3. heap machine -/
 
 inductive Item where
@@ -270,6 +369,28 @@ inductive Obj where
 
 abbrev Store := List Obj
 
+def intItem (n : Int) : Seq := [.atom (.int n)]
+def boolItem (b : Bool) : Seq := [.atom (.bool b)]
+
+def Fn1.app : Fn1 → Seq → Seq
+  | .ident, x => x
+  | .const k, _ => [.atom k]
+  | .dup, x => x ++ x
+  | .count, x => intItem x.length
+
+def Pred1.app : Pred1 → Seq → Option Bool
+  | .always b, _ => some b
+  | .nonEmpty, x => some (!x.isEmpty)
+  | .single, x => some (x.length == 1)
+  | .notBool, _ => none
+
+def Fn2.app : Fn2 → Seq → Seq → Seq
+  | .concat, a, b => a ++ b
+  | .rconcat, a, b => b ++ a
+  | .left, a, _ => a
+  | .right, _, b => b
+  | .countR, _, b => intItem b.length
+
 /-- the pure functions an interpreter is built from; `pyDialect` = the transcriptions above,
 `specDialect` (EPV/Spec/FOMaps.lean) = the F&O definitions -/
 structure Dialect where
@@ -279,6 +400,10 @@ structure Dialect where
   mapRemove : Entries Seq → List Key → Except Err (Entries Seq)
   mapGet : Entries Seq → Key → Seq
   mapContains : Entries Seq → Key → Bool
+  /-- `k in m.keys()` as used by deep-equal -/
+  mapHas : Entries Seq → Key → Bool
+  /-- deep-equal on two atomic items -/
+  atomEq : Key → Key → Bool
   mapMerge : List (Entries Seq) → Policy → Except Err (Entries Seq)
   findEq : Key → Key → Bool
   arrIndex : Key → Except Err Int
@@ -306,6 +431,8 @@ def pyDialect (alias : Bool) : Dialect where
   mapRemove := mapRemove
   mapGet := mapGet
   mapContains := mapContains
+  mapHas := dictHas
+  atomEq := pyAtomEq
   mapMerge := mapMerge
   findEq := sameKeyPy
   arrIndex := pyArrIndex
@@ -355,6 +482,13 @@ inductive Op where
   | aJoin (v : Nat)
   | aFlatten (v : Nat)
   | aSize (a : Nat)
+  | aForEach (a : Nat) (f : Fn1)                 -- `array:for-each($a, f)`
+  | aFilter (a : Nat) (p : Pred1)                -- `array:filter($a, p)`
+  | aFoldL (a : Nat) (z : Nat) (f : Fn2)      -- `array:fold-left($a, $zero, f)`
+  | aFoldR (a : Nat) (z : Nat) (f : Fn2)      -- `array:fold-right($a, $zero, f)`
+  | aForEachPair (a b : Nat) (f : Fn2)           -- `array:for-each-pair($a, $b, f)`
+  | mForEachF (m : Nat) (f : Fn2)                -- `map:for-each($m, f)`
+  | deq (a b : Nat)                              -- `deep-equal($a, $b)`
   deriving Inhabited
 
 /-- literal keys of an operation (what the clash predicate of the findings F15d/F15f looks at) -/
@@ -364,6 +498,12 @@ def opKeys : Op → List Key
   | .mRemove _ ks => ks
   | .lookup _ (some ks) => ks
   | _ => []
+
+/-- `deep-equal` steps are outside the refinement theorem (their atom comparison has its own
+agreement theorem and clash predicate) -/
+def opIsDeq : Op → Bool
+  | .deq .. => true
+  | _ => false
 
 def Key.isBool : Key → Bool
   | .bool _ => true
@@ -436,6 +576,39 @@ def lookupItem (d : Dialect) (s : Store) (ks : Option (List Key)) (it : Item) : 
       | some ks => (ks.mapM fun k => do let p ← d.arrIndex k; d.arrGet ms p).map List.flatten
     | none => .error .XPTY0004
 
+
+mutual
+  /-- `sequence_deep_equal` of compare.py (after the fix "deep-equal compares maps and arrays
+  recursively") on atoms, maps and arrays; `fuel` bounds the nesting depth -/
+  def deepEqSeq (d : Dialect) (s : Store) : Nat → Seq → Seq → Bool
+    | 0, _, _ => false
+    | fuel + 1, v1, v2 =>
+      v1.length == v2.length && (v1.zip v2).all fun p => deepEqItem d s fuel p.1 p.2
+  def deepEqItem (d : Dialect) (s : Store) : Nat → Item → Item → Bool
+    | _, .atom a, .atom b => d.atomEq a b
+    | 0, _, _ => false
+    | fuel + 1, .ref a, .ref b =>
+      match s[a]?, s[b]? with
+      | some (.map e1), some (.map e2) =>
+        e1.length == e2.length &&
+          e1.all fun e => d.mapHas e2 e.1 && deepEqSeq d s fuel e.2 (d.mapGet e2 e.1)
+      | some (.arr m1), some (.arr m2) =>
+        m1.length == m2.length && (m1.zip m2).all fun p => deepEqSeq d s fuel p.1 p.2
+      | _, _ => false
+    | _, _, _ => false
+end
+
+/-- all atomic values reachable from a value (for the clash predicate of deep-equal) -/
+def atomsOf (s : Store) : Nat → Seq → List Key
+  | 0, _ => []
+  | fuel + 1, v => v.flatMap fun it =>
+    match it with
+    | .atom k => [k]
+    | .ref a => match s[a]? with
+      | some (.arr ms) => atomsOf s fuel ms.flatten
+      | some (.map es) => es.flatMap fun e => e.1 :: atomsOf s fuel e.2
+      | none => []
+
 def allocMany (s : Store) : List Obj → Store × Seq
   | [] => (s, [])
   | o :: os =>
@@ -450,8 +623,6 @@ def writeBack (d : Dialect) (s : Store) (a : Nat) (ms : List Seq) : Store :=
 def liftAlloc (s : Store) (r : Except Err Obj) : Except Err (Store × Seq) :=
   r.map (alloc s)
 
-def boolItem (b : Bool) : Seq := [.atom (.bool b)]
-def intItem (n : Int) : Seq := [.atom (.int n)]
 
 /-- evaluation of one operation: new store and the value -/
 def evalOp (d : Dialect) (st : St) : Op → Except Err (Store × Seq)
@@ -533,6 +704,28 @@ def evalOp (d : Dialect) (st : St) : Op → Except Err (Store × Seq)
   | .aSize a => do
       let (_, ms) ← asArr st.store (st.var a)
       .ok (st.store, intItem ms.length)
+  | .aForEach a f => do
+      let (_, ms) ← asArr st.store (st.var a)
+      .ok (alloc st.store (.arr (ms.map f.app)))
+  | .aFilter a p => do
+      let (_, ms) ← asArr st.store (st.var a)
+      let ms' ← filterLoop p.app ms
+      .ok (alloc st.store (.arr ms'))
+  | .aFoldL a z f => do
+      let (_, ms) ← asArr st.store (st.var a)
+      .ok (st.store, foldLLoop f.app (st.var z) ms)
+  | .aFoldR a z f => do
+      let (_, ms) ← asArr st.store (st.var a)
+      .ok (st.store, foldRLoop f.app (st.var z) ms)
+  | .aForEachPair a b f => do
+      let (_, ms1) ← asArr st.store (st.var a)
+      let (_, ms2) ← asArr st.store (st.var b)
+      .ok (alloc st.store (.arr (pairLoop f.app ms1 ms2)))
+  | .mForEachF m f => do
+      let es ← asMap st.store (st.var m)
+      .ok (st.store, es.flatMap fun e => f.app [.atom e.1] e.2)
+  | .deq a b =>
+      .ok (st.store, boolItem (deepEqSeq d st.store (2 * st.store.length + 4) (st.var a) (st.var b)))
 
 /-- one step: the result (or the empty sequence after an error) is bound to the next variable;
 an operation that raises leaves the store as it was -/
